@@ -14,6 +14,7 @@ import math
 import os
 import re
 import subprocess
+import sys
 import tempfile
 import time
 from fractions import Fraction
@@ -197,7 +198,7 @@ def max_depth_for(rad):
 
 
 FAMILIES = ["uniform", "cap", "npole", "spole", "seam", "duplicates", "self", "edges", "deepedge", "tiny",
-            "antipodal", "radius0", "perpoint", "threshold"]
+            "antipodal", "radius0", "perpoint", "threshold", "dtypes"]
 LAYOUTS = ["plain", "swapped", "strided", "negstride", "list"]
 
 
@@ -345,6 +346,31 @@ def gen_problem(r, fam, big=False):
         pts2 = [pt(r.choice([-1, 1])) for _ in range(n2)]
         if r.random() < 0.5:
             pts2[r.randrange(n2)] = pts1[r.randrange(n1)]
+    elif fam == "dtypes":
+        # coordinates that integer / float32 arrays denote exactly (an integer or float32 input
+        # denotes an exact real): whole degrees on a grid, or float32-representable points of a cap
+        import numpy as np
+        if r.random() < 0.55:
+            ra0, dec0 = r.randrange(12, 348), r.randrange(-78, 79)
+            if r.random() < 0.2:
+                ra0, dec0 = r.choice([(8, 0), (350, 0), (90, 84), (180, -84)])
+            w = r.choice([2, 5, 9])
+            pts1 = [(float(ra0 + r.randrange(-w, w + 1)), float(dec0 + r.randrange(-w // 2, w // 2 + 1))) for _ in range(n1)]
+            pts2 = [(float(ra0 + r.randrange(-w, w + 1)), float(dec0 + r.randrange(-w // 2, w // 2 + 1))) for _ in range(n2)]
+            rad = float(r.choice([0, 1, 2, 3, w, 2 * w])) if r.random() < 0.7 else r.choice([0.5, 1.5, 2.25, w + 0.5])
+            if r.random() < 0.3 and n1 > 1:
+                rad = [float(r.choice([0, 1, 2, w])) for _ in range(n1)]
+            kinds = INT_FORMS + ["plain", "f4"]
+        else:
+            size = logu(r, 1e-2, 30)
+            c0 = sph_uniform(r)
+            f32 = lambda t: float(np.float32(t))
+            pts1 = [tuple(map(f32, cap_point(r, c0[0], c0[1], size))) for _ in range(n1)]
+            pts2 = [tuple(map(f32, cap_point(r, c0[0], c0[1], size))) for _ in range(n2)]
+            pts1 = [(a if a < 360.0 else 0.0, d) for a, d in pts1]
+            pts2 = [(a if a < 360.0 else 0.0, d) for a, d in pts2]
+            rad = f32(max(1e-3, size * logu(r, 0.05, 2.5)))
+            kinds = F4_FORMS + ["plain", "list"]
     elif fam == "tiny":
         c0 = sph_uniform(r)
         if r.random() < 0.3:
@@ -385,6 +411,8 @@ def gen_problem(r, fam, big=False):
            "ra2": [p[0] for p in pts2], "dec2": [p[1] for p in pts2], "radius": rad, "scale": scale}
     if fixdepth is not None:
         out["fixdepth"] = fixdepth
+    if fam == "dtypes":
+        out["formkinds"] = kinds
     return out
 
 
@@ -399,40 +427,134 @@ def gen_config(r, p, fam):
     depth = r.choice([r.randrange(1, dmax + 1), dmax, min(dmax, 10)])
     if p.get("fixdepth"):
         depth = min(dmax, p.pop("fixdepth"))
-    k = r.choice([-1, 0, 1, 2, r.randrange(3, 7), n2 + 5])
-    return {"depth": depth, "maxmatch": k, "via": r.choice(["htm", "matcher"]),
-            "layout": r.choice(LAYOUTS + ["plain"]), "family": fam}
+    k = r.choice([-1, 0, 1, 1, 2, r.randrange(3, 7), n2 + 5])
+    cfg = {"depth": depth, "maxmatch": k, "via": r.choice(["htm", "matcher"]),
+           "layout": r.choice(LAYOUTS + ["plain"]), "family": fam}
+    # one input form per argument (forms that denote the values exactly)
+    kinds = p.pop("formkinds", None)
+    if kinds or r.random() < 0.4:
+        forms = {}
+        for name in ("ra1", "dec1", "ra2", "dec2", "radius"):
+            x = p[name] if isinstance(p[name], list) else [p[name]]
+            cand = list(kinds or ANY_FORMS)
+            if len(x) == 1:
+                cand += LEN1_FORMS
+            cand = [f for f in cand if form_ok(x, f)] or ["plain"]
+            forms[name] = r.choice(cand)
+        cfg["forms"] = forms
+    kwf = {}
+    if k == 1 and r.random() < 0.5:
+        kwf["maxmatch"] = "omit"
+    elif r.random() < 0.15:
+        kwf["maxmatch"] = "positional"      # (a numpy integer is rejected by SWIG with TypeError: outside the statement)
+    if r.random() < 0.2:
+        kwf["file"] = "none"
+    if r.random() < 0.1:
+        kwf["verbose"] = True
+    if kwf:
+        cfg["kw"] = kwf
+    return cfg
 
 
 # ----------------------------------------------------------------------------
 # driving the real code
 # ----------------------------------------------------------------------------
 
-def _mk(x, layout):
+INT_FORMS = ["i4", "i8", ">i4", ">i8", "i2", "u2", "intlist", "i8s"]
+F4_FORMS = ["f4", ">f4", "f4s"]
+# arrays with more than one dimension (shape (1, n): a row x[None, :]; shape (n, 1): a column); switched on
+# once fixes/C12/0004 (flattening in Matcher / Matcher.match) is in /repo -- before it a row makes the C
+# code read beyond the buffer (witness: corpus/C12/fixed-2d-shape.json)
+FORMS_2D = False
+ANY_FORMS = ["plain", "swapped", "strided", "negstride", "list", "tuple", "readonly"] + (["row2d", "col2d"] if FORMS_2D else [])
+LEN1_FORMS = ["scalar", "zerod", "pyint"]
+
+
+def _strided(a, fill):
+    import numpy as np
+    b = np.full(3 * len(a) + 2, fill, dtype=a.dtype)
+    v = b[1:1 + 3 * len(a):3]
+    v[...] = a
+    assert len(a) < 2 or not v.flags["C_CONTIGUOUS"]
+    return v
+
+
+def form_ok(x, form):
+    """does the form denote exactly the values x (no rounding, no overflow, no wrap)?"""
     import numpy as np
     a = np.array(x, dtype="f8")
+    if form in ANY_FORMS or form in ("row2d", "col2d"):
+        return True
+    if form in ("scalar", "zerod"):
+        return len(x) == 1
+    if form == "pyint":
+        return len(x) == 1 and float(x[0]) == int(x[0])
+    if form in INT_FORMS:
+        if not np.all(a == np.round(a)):
+            return False
+        if form == "intlist":
+            return True
+        dt = np.dtype(form.rstrip("s"))
+        info = np.iinfo(dt)
+        return bool(np.all(a >= info.min) and np.all(a <= info.max))
+    if form in F4_FORMS:
+        return bool(np.all(a.astype("f4").astype("f8") == a))
+    return False
+
+
+def _mk(x, layout):
+    """the values x in the requested input form; falls back to a float64 array when the form
+    cannot denote them exactly"""
+    import numpy as np
+    a = np.array(x, dtype="f8")
+    if not form_ok(x, layout):
+        return a
     if layout == "swapped":
         return a.astype(">f8")
     if layout == "strided":
-        b = np.full(3 * len(x) + 2, 777.0)
-        v = b[1:1 + 3 * len(x):3]
-        v[...] = a
-        assert len(x) < 2 or not v.flags["C_CONTIGUOUS"]
-        return v
+        return _strided(a, 777.0)
     if layout == "negstride":
         return a[::-1].copy()[::-1]
     if layout == "list":
         return [float(t) for t in x]
-    if layout == "scalar" and len(x) == 1:
+    if layout == "tuple":
+        return tuple(float(t) for t in x)
+    if layout == "readonly":
+        a.setflags(write=False)
+        return a
+    if layout == "row2d":
+        return a[None, :]
+    if layout == "col2d":
+        return a[:, None]
+    if layout == "scalar":
         return float(x[0])
+    if layout == "zerod":
+        return np.array(float(x[0]))
+    if layout == "pyint":
+        return int(x[0])
+    if layout == "intlist":
+        return [int(t) for t in x]
+    if layout in INT_FORMS or layout in F4_FORMS:
+        dt = np.dtype(layout.rstrip("s"))
+        b = a.astype(dt)
+        return _strided(b, 77) if layout.endswith("s") else b
     return a
 
 
 def _inputs(c, layout=None):
+    """(ra1, dec1, ra2, dec2, radius) in the forms of the case: `forms` (one per argument) when
+    present and no layout is forced, else one layout for all"""
+    forms = c.get("forms") if layout is None else None
     lay = layout or c.get("layout", "plain")
+
+    def f(name):
+        return forms.get(name, lay) if forms else lay
     rad = c["radius"]
-    radv = _mk(rad, lay) if isinstance(rad, list) else float(rad)
-    return (_mk(c["ra1"], lay), _mk(c["dec1"], lay), _mk(c["ra2"], lay), _mk(c["dec2"], lay), radv)
+    if isinstance(rad, list):
+        radv = _mk(rad, f("radius"))
+    else:
+        radv = _mk([rad], f("radius")) if forms else float(rad)     # one value: python float / int / 0-d / length-1 container
+    return (_mk(c["ra1"], f("ra1")), _mk(c["dec1"], f("dec1")), _mk(c["ra2"], f("ra2")), _mk(c["dec2"], f("dec2")), radv)
 
 
 def _rows(res):
@@ -441,19 +563,49 @@ def _rows(res):
     return [[int(a), int(b), float(x)] for a, b, x in zip(m1, m2, d)]
 
 
-def run_match(c, depth=None, via=None, layout=None, file=None):
+def run_match(c, depth=None, via=None, layout=None, file=None, again=False):
+    """one call of the real code.  c["kw"]: how the optional arguments are passed (maxmatch omitted
+    when it is the default 1, positional, file=None given explicitly, verbose=True);
+    c["reuse"]: 1 = another query on the same Matcher first; 2 = additionally the caller reuses
+    (overwrites) the buffers the Matcher was built from, and the query is made twice.
+    again=True: the call is made twice with the SAME argument objects, the second answer counts."""
+    import numpy as np
     import esutil.htm as htm
     ra1, dec1, ra2, dec2, rad = _inputs(c, layout)
     depth = depth or c["depth"]
+    kwf = c.get("kw") or {}
     kw = {"maxmatch": c["maxmatch"]}
+    if kwf.get("maxmatch") == "omit" and c["maxmatch"] == 1:
+        kw = {}
+    if kwf.get("maxmatch") == "npint":
+        kw = {"maxmatch": np.int64(c["maxmatch"])}
     if file is not None:
         kw["file"] = file
+    elif kwf.get("file") == "none":
+        kw["file"] = None
     if (via or c["via"]) == "htm":
-        return htm.HTM(depth).match(ra1, dec1, ra2, dec2, rad, **kw)
+        h = htm.HTM(depth)
+        if kwf.get("verbose"):
+            kw["verbose"] = True
+        if again:
+            h.match(ra1, dec1, ra2, dec2, rad, **kw)
+        return h.match(ra1, dec1, ra2, dec2, rad, **kw)
     m = htm.Matcher(depth, ra2, dec2)
-    if c.get("reuse"):
+    reuse = int(c.get("reuse") or 0)
+    if reuse:
         # a query with other data in between must not change the answer
-        m.match(ra2, dec2, 0.5 * (c["scale"] + 1e-6), maxmatch=1)
+        ra2b, dec2b = _mk(c["ra2"], "plain"), _mk(c["dec2"], "plain")
+        m.match(ra2b, dec2b, 0.5 * (c["scale"] + 1e-6), maxmatch=1)
+    if reuse >= 2:
+        # the caller fills the buffers it built the Matcher from with the next chunk of its data
+        for arr in (ra2, dec2):
+            if isinstance(arr, np.ndarray) and arr.flags.writeable and arr.ndim == 1:
+                arr[...] = arr[::-1].copy() if arr.size > 1 else arr + 1
+        m.match(ra1, dec1, rad, **kw)
+    if again:
+        m.match(ra1, dec1, rad, **kw)
+    if kwf.get("maxmatch") == "positional" and file is None:
+        return m.match(ra1, dec1, rad, c["maxmatch"])
     return m.match(ra1, dec1, rad, **kw)
 
 
@@ -637,8 +789,15 @@ class Match(Base):
                            maxmatch=1, via="matcher", layout="plain", family="empty"))
             cs.append(dict(ra1=[200.0], dec1=[24.3], ra2=[200.0], dec2=[24.3], radius=0.0, scale=0.0, depth=10,
                            maxmatch=1, via="htm", layout="scalar", family="scalar"))
+            cs.append(dict(ra1=[], dec1=[], ra2=[], dec2=[], radius=2.0, scale=2.0, depth=5,
+                           maxmatch=0, via="matcher", layout="list", family="empty"))
+            cs.append(dict(ra1=[], dec1=[], ra2=[10.0], dec2=[-3.0], radius=[], scale=0.0, depth=5,
+                           maxmatch=2, via="htm", layout="plain", family="empty"))
+            cs.append(dict(ra1=[200], dec1=[24], ra2=[200, 201], dec2=[24, 24], radius=1, scale=1.0, depth=8,
+                           maxmatch=1, via="matcher", layout="plain", family="scalar", kw={"maxmatch": "omit"},
+                           forms={"ra1": "pyint", "dec1": "zerod", "ra2": "intlist", "dec2": "i4", "radius": "pyint"}))
         for c in cs:
-            c["reuse"] = c["via"] == "matcher" and ctx.rng.random() < 0.5
+            c["reuse"] = ctx.rng.choice([0, 1, 2, 2]) if c["via"] == "matcher" else 0
         return self.prepare(ctx, cs)
 
     def impl(self, c):
@@ -704,14 +863,18 @@ class Variants(Base):
             else:
                 depths = list(range(1, dmax + 1))
             vs = [{"depth": d, "via": r.choice(["htm", "matcher"]), "layout": "plain"} for d in depths]
-            vs += [{"depth": c["depth"], "via": v, "layout": lay} for v in ("htm", "matcher") for lay in r.sample(LAYOUTS, 2)]
+            lays = LAYOUTS + ["tuple", "readonly"] + (["row2d", "col2d"] if FORMS_2D else [])
+            vs += [{"depth": c["depth"], "via": v, "layout": lay} for v in ("htm", "matcher") for lay in r.sample(lays, 2)]
+            vs.append({"depth": c["depth"], "via": r.choice(["htm", "matcher"]), "layout": r.choice(lays), "again": True})
+            c.pop("forms", None)      # every variant states its own layout
             c["variants"] = vs
         return self.prepare(ctx, cs)
 
     def impl(self, c):
         outs = []
         for v in c["variants"]:
-            outs.append(core.guarded(lambda v=v: _rows(run_match(c, depth=v["depth"], via=v["via"], layout=v["layout"]))))
+            outs.append(core.guarded(lambda v=v: _rows(run_match(c, depth=v["depth"], via=v["via"], layout=v["layout"],
+                                                                 again=bool(v.get("again"))))))
         return {"outs": outs}
 
     def term(self, c, out):
@@ -747,12 +910,20 @@ class FileRT(Base):
         d = tempfile.mkdtemp(prefix="c12file.", dir=core.SCRATCH_ROOT)
         fn = os.path.join(d, "pairs.txt")
         try:
+            import pathlib
+            # file name as str or as pathlib.Path (check_filename applies str()); HTM.read is the
+            # documented alias of read_pairs and must return the same table
+            fnarg = pathlib.Path(fn) if (len(c["ra1"]) + len(c["ra2"])) % 2 else fn
             mem = core.guarded(lambda: _rows(run_match(c)))
-            cnt = core.guarded(lambda: int(run_match(c, file=fn)))
+            cnt = core.guarded(lambda: int(run_match(c, file=fnarg)))
             size = os.path.getsize(fn) if os.path.exists(fn) else -1
 
             def rd():
-                t = htm.read_pairs(fn)
+                import numpy as np
+                t = htm.read_pairs(fnarg)
+                t2 = htm.HTM(c["depth"]).read(fnarg, verbose=False)
+                if t.dtype != t2.dtype or t.shape != t2.shape or not np.array_equal(t, t2):
+                    raise RuntimeError("HTM.read and read_pairs differ")
                 return [[int(a), int(b), float(x)] for a, b, x in zip(t["i1"], t["i2"], t["d12"])]
             back = core.guarded(rd)
         finally:
@@ -775,6 +946,142 @@ class FileRT(Base):
         return "v_file %d %d %s %s %s %d %s %s %s %s %s" % (
             n1, n2, c_dtrue(c, E), c_rads(c, E), zl(c["maxmatch"]), E, c_same(c),
             c_rows(mem, E), c_rows(back, E), zl(cnt), rtm)
+
+
+class FileLong(Entry):
+    """a pair file with more rows than any plausible reader block (> 2^14, 2^15, 2^16 rows): all pairs
+    of two small grids (indices stay small), written with file= and read back with read_pairs"""
+    name = "file_long"
+
+    def cases(self, ctx, round=0):
+        if round:
+            return []
+        r = ctx.rng
+        sizes = [(129, 128)] if ctx.quick() else [(129, 128), (182, 181), (257, 256), (320, 313)]
+        cs = []
+        for n1, n2 in sizes:
+            ra0, dec0 = r.uniform(20, 340), r.uniform(-50, 50)
+            cs.append({"ra1": [ra0 + 0.01 * i for i in range(n1)], "dec1": [dec0 + 0.003 * (i % 7) for i in range(n1)],
+                       "ra2": [ra0 + 0.01 * j + 0.004 for j in range(n2)], "dec2": [dec0 - 0.002 * (j % 5) for j in range(n2)],
+                       "radius": 180.0, "scale": 180.0, "depth": r.choice([1, 3]), "maxmatch": r.choice([0, -1, n2 + 1]),
+                       "via": r.choice(["htm", "matcher"]), "layout": "plain", "family": "longfile:%d" % (n1 * n2)})
+        return cs
+
+    def impl(self, c):
+        return FileRT.impl(self, c)
+
+    def term(self, c, out):
+        if out["mem"][0] != "ok" or out["count"][0] != "ok" or out["file"][0] != "ok":
+            return "3"
+        mem, back, cnt = out["mem"][1], out["file"][1], out["count"][1]
+        if not rows_printable(mem) or not rows_printable(back) or len(mem) != len(c["ra1"]) * len(c["ra2"]):
+            return "3"          # a 180-degree match without limit returns every pair
+        rts = [float("%.16g" % x) for _, _, x in mem]
+        E = scale_exp(c, [x for _, _, x in mem] + [x for _, _, x in back] + rts)
+        def rws(rows):
+            return "[" + "; ".join("rowi %d %d %s" % (a, b, limbs(_units(x, E))) for a, b, x in rows) + "]"
+        return "v_file_long %s %s [%s] %s" % (rws(mem), rws(back), "; ".join(limbs(_units(x, E)) for x in rts), zl(cnt))
+
+    def nontrivial(self, c, out):
+        return True
+
+
+def _group_rows(rows):
+    g = {}
+    for a, b, x in rows:
+        g.setdefault(a, []).append((b, x))
+    return g
+
+
+class Long(Base):
+    """long inputs (2^k - 1, 2^k, 2^k + 1 ... 10^5 points): a small problem whose first or second
+    set is repeated to the long length.  The small problem goes through the model and the
+    verified checker in Coq as in `match`; that the long run is exactly the repetition of the
+    small run is decided here on exact integers / bit-identical floats (verdict 3 otherwise)."""
+    name = "long"
+
+    def cases(self, ctx, round=0):
+        if round:
+            return []
+        r = ctx.rng
+        lens = ([1025, 4097, 16385, 65537] if ctx.quick()
+                else [1023, 1024, 1025, 4095, 4096, 4097, 8193, 16384, 16385, 32769, 65536, 65537, 100003])
+        cs = []
+        for n, L in enumerate(lens):
+            fam = r.choice(["cap", "seam", "duplicates", "npole", "perpoint", "dtypes"])
+            p = gen_problem(r, fam)
+            which = 1 + n % 2
+            # keep the small problem small: the long output has (long / small) times its rows
+            p["ra1"], p["dec1"] = p["ra1"][:6], p["dec1"][:6]
+            p["ra2"], p["dec2"] = p["ra2"][:9], p["dec2"][:9]
+            if isinstance(p["radius"], list):
+                p["radius"] = p["radius"][:len(p["ra1"])]
+                if len(p["radius"]) == 1 and which == 1:
+                    p["radius"] = p["radius"][0]
+                p["scale"] = max(p["radius"]) if isinstance(p["radius"], list) else p["radius"]
+            p.pop("fixdepth", None)
+            p.update(gen_config(r, p, fam))
+            p["family"] = "long%d:%s" % (which, fam)
+            p["tile"] = {"which": which, "len": L}
+            if which == 2:
+                p["maxmatch"] = r.choice([0, -1])      # which of several identical points is cut is not specified
+                p.get("kw", {}).pop("maxmatch", None)
+            p["reuse"] = 0
+            cs.append(p)
+        return self.prepare(ctx, cs)
+
+    @staticmethod
+    def long_case(c):
+        L, which = c["tile"]["len"], c["tile"]["which"]
+        d = dict(c)
+
+        def rep(x):
+            return [x[i % len(x)] for i in range(L)]
+        if which == 1:
+            d["ra1"], d["dec1"] = rep(c["ra1"]), rep(c["dec1"])
+            if isinstance(c["radius"], list):
+                d["radius"] = rep(c["radius"])
+        else:
+            d["ra2"], d["dec2"] = rep(c["ra2"]), rep(c["dec2"])
+        return d
+
+    def impl(self, c):
+        out = Match.impl(self, c)
+        big = core.guarded(lambda: _rows(run_match(self.long_case(c))))
+        out["long_ok"], out["long_rows"], out["why"] = self.compare(c, out["res"], big)
+        return out
+
+    @staticmethod
+    def compare(c, small, big):
+        if small[0] != "ok" or big[0] != "ok":
+            return (small[0] != "ok" and big[0] != "ok" and small[1] == big[1]), 0, "error classes %r / %r" % (small[1], big[1])
+        L, which = c["tile"]["len"], c["tile"]["which"]
+        gs, gb = _group_rows(small[1]), _group_rows(big[1])
+        n1, n2 = len(c["ra1"]), len(c["ra2"])
+        if [a for a, _, _ in big[1]] != sorted(a for a, _, _ in big[1]):
+            return False, len(big[1]), "first-set indices not in input order"
+        if which == 1:
+            for i in range(L):
+                if gb.get(i, []) != gs.get(i % n1, []):
+                    return False, len(big[1]), "group of long point %d differs from group of small point %d" % (i, i % n1)
+            return (set(gb) <= set(range(L))), len(big[1]), "index out of range"
+        for i in range(n1):
+            exp = sorted((x, j) for j, x in gs.get(i, []) for _ in range((L - j + n2 - 1) // n2))
+            got = gb.get(i, [])
+            if [x for _, x in got] != sorted(x for _, x in got):
+                return False, len(big[1]), "group %d not sorted by separation" % i
+            if len(set(j for j, _ in got)) != len(got) or any(not (0 <= j < L) for j, _ in got):
+                return False, len(big[1]), "group %d: repeated or invalid second-set index" % i
+            if sorted((x, j % n2) for j, x in got) != exp:
+                return False, len(big[1]), "group %d is not the repetition of the small group" % i
+        return (set(gb) <= set(range(n1))), len(big[1]), "index out of range"
+
+    def term(self, c, out):
+        if not out["long_ok"]:
+            return "3"
+        if self.ctx:
+            self.ctx.count("long:rows", out["long_rows"])
+        return Match.term(self, c, out)
 
 
 class Cover(Base):
@@ -846,7 +1153,7 @@ class Reject(Entry):
         return False
 
 
-ENTRIES = [Match(), Variants(), FileRT(), Cover(), Reject()]
+ENTRIES = [Match(), Variants(), FileRT(), FileLong(), Long(), Cover(), Reject()]
 
 
 # ----------------------------------------------------------------------------
@@ -967,6 +1274,82 @@ def certify(ctx, replay=None):
     ctx.count("wall_s:sepcert", round(time.time() - t0, 1))
 
 
+class Watchdog:
+    """A forked watcher process: when one call of the real code does not return within `limit`
+    seconds (the C++ code holds the GIL, so neither a signal handler nor a thread could notice),
+    it writes the replay of that case, prints the VIOLATION line and kills the run, which ./check
+    then also reports as a died process."""
+
+    def __init__(self, ctx, limit):
+        self.path = os.path.join(ctx.work, "heartbeat.json")
+        self.limit = limit
+        self.idle()
+        sys.stdout.flush()
+        pid = os.fork()
+        if pid == 0:
+            try:
+                self._watch(ctx, os.getppid())
+            finally:
+                os._exit(0)
+        self.pid = pid
+
+    def _put(self, obj):
+        tmp = self.path + ".tmp"
+        with open(tmp, "w") as f:
+            json.dump(obj, f, default=str)
+        os.replace(tmp, self.path)
+
+    def beat(self, entry, case):
+        self._put({"t": time.time(), "entry": entry, "case": case})
+
+    def idle(self):
+        self._put({"t": time.time(), "idle": True})
+
+    def stop(self):
+        try:
+            os.kill(self.pid, 15)
+            os.waitpid(self.pid, 0)
+        except OSError:
+            pass
+
+    def _watch(self, ctx, parent):
+        while True:
+            time.sleep(2)
+            try:
+                os.kill(parent, 0)
+                hb = json.load(open(self.path))
+            except (OSError, ValueError):
+                return
+            if hb.get("idle") or time.time() - hb["t"] <= self.limit:
+                continue
+            what = "%s: the implementation did not return within %d s on this case" % (hb["entry"], self.limit)
+            ctx.violations = []
+            ctx.violation(what, {"kind": "failing-input", "entry": hb["entry"], "case": hb["case"], "impl_output": "no return",
+                                 "class": None}, found_input=True)
+            print("VIOLATION property=%s replay=%s\n  -> %s" % (ctx.pid, ctx.violations[0]["replay"], what))
+            sys.stdout.flush()
+            try:
+                os.kill(parent, 9)
+            except OSError:
+                pass
+            return
+
+    def wrap(self, entries):
+        for ent in entries:
+            if getattr(ent, "_watched", False):
+                continue
+            orig = ent.impl
+
+            def impl(c, ent=ent, orig=orig):
+                self.beat(ent.name, c)
+                try:
+                    return orig(c)
+                finally:
+                    self.idle()
+            ent.impl = impl
+            ent._watched = True
+
+
 def extra_theorems(ctx, module, allow, nmin, what):
     """build C12/<module>.vo and check Print Assumptions of each of its theorems; one obligation per theorem"""
     thms = core.theorems_in(os.path.join(core.COQDIR, "theories", "C12", module + ".v"))
@@ -999,14 +1382,14 @@ def corpus_all(entry_name):
     return corpus_cases("C12", entry_name)
 
 TRUSTED = [
-    "Coq 8.16.1 kernel (coqc, vm_compute; no native_compute).  The 18 theorems of C12/Properties.v and the 4 of "
+    "Coq 8.16.1 kernel (coqc, vm_compute; no native_compute).  The 18 theorems of C12/Properties.v and the 5 of "
     "C12/TieProperties.v are closed under the global context (no axioms); the 5 of C12/SepProperties.v use only the standard "
     "library's axioms of the reals (ClassicalDedekindReals.sig_forall_dec, sig_not_dec, functional_extensionality_dep, "
     "Classical_Prop.classic); the per-case interval lemmas additionally the primitive-float/int specifications used by Interval",
     "hand-written model C12/Model.v of Matcher::init_hmap / Matcher::match (htmc.cc) and HTM.match / Matcher.match / read_pairs "
     "(htm.py); tied to the code (a) by the correspondence run on every check (differential testing, bounded by the generators) and "
     "(b) by harness/props/c12_translate.py, which regenerates C12/Gen.v (distance filter, sort comparator, emit guard, maxmatch "
-    "truncation, radius selection, all 8 for-headers, fprintf format, the ValueError size checks, read_pairs dtype/delimiter) and "
+    "truncation, radius selection, all 8 for-headers, fprintf format, the ValueError size checks, read_pairs dtype/delimiter and its empty-file test) and "
     "C12/GenR.v (NPY_PI/D2R/R2D, the whole body of gcirc, MATCH_COVER_PAD_DEGREES and match_cover_cosine) from the source of the "
     "tree under check, fail-closed; TieProperties.v / SepProperties.v are re-proved against them.  The translator itself "
     "(regex/ast pattern matching, ~500 lines python) is trusted",
@@ -1056,16 +1439,22 @@ def run(ctx, replay=None):
     #    TieProperties.v (model = regenerated source text) closed under the global context;
     #    SepProperties.v (real numbers) may use the axioms of the standard library of reals only
     core.proof_step(ctx, "C12", core.ALLOW_DISCRETE)
-    extra_theorems(ctx, "TieProperties", core.ALLOW_DISCRETE, 4,
+    extra_theorems(ctx, "TieProperties", core.ALLOW_DISCRETE, 5,
                    "tie of C12/Model.v to the regenerated C12/Gen.v (decisions, loops, size checks, file format of the source)")
     extra_theorems(ctx, "SepProperties", core.ALLOW_REALS, 5,
                    "C12/SepProperties.v over the regenerated C12/GenR.v (gcirc is the true separation; every point within the radius lies in the searched cap)")
-    # 3. the real code against the model and the verified checker
-    if replay is not None and replay.get("entry") == "sepcert":
-        core.coq_make(["theories/C12/SepCert.vo"])
-        certify(ctx, replay)
-        return
-    differential(ctx, PRE, ENTRIES, replay)
+    # 3. the real code against the model and the verified checker (a call that does not return is
+    #    reported with its case by the watchdog)
+    wd = Watchdog(ctx, ctx.n(120, 300))
+    try:
+        wd.wrap(ENTRIES)
+        if replay is not None and replay.get("entry") == "sepcert":
+            core.coq_make(["theories/C12/SepCert.vo"])
+            certify(ctx, replay)
+            return
+        differential(ctx, PRE, ENTRIES, replay)
+    finally:
+        wd.stop()
     # 4. kernel-checked separations on a sample (needs SepProofs.vo, which needs GenR.v to build)
     if replay is None:
         ok, log = core.coq_make(["theories/C12/SepCert.vo"])
